@@ -124,7 +124,10 @@ theorem historyWiring_rememberRowBody : Gen.HistoryWiring.rememberRowBody =
   ["for fieldname, fieldvalue in row.items():\n    if isinstance(fieldvalue, (ObjectRow, ObjectReference)):\n        self.interpreter.globals.register_intertable_reference(tablename, fieldvalue._tablename, fieldname)", "history_tables = self.interpreter.tables_to_keep_history_for", "should_save: bool = tablename in history_tables or nickname in history_tables or SAVE_EVERYTHING", "if should_save:\n    self.interpreter.row_history.save_row(tablename, nickname, row)"] := rfl
 /-- `resave_objects_from_continuation` statements -/
 theorem historyWiring_resaveBody : Gen.HistoryWiring.resaveBody =
-  ["relevant_objs = [(obj._tablename, nickname, obj) for nickname, obj in globals.persistent_nicknames.items()]", "already_saved = set((obj._id for _, _, obj in relevant_objs))", "relevant_objs.extend(((tablename, None, obj) for tablename, obj in globals.persistent_objects_by_table.items() if obj._id not in already_saved))", "relevant_objs = ((table, nick, obj) for table, nick, obj in relevant_objs if table in tables_to_keep_history_for)", "for tablename, nickname, obj in relevant_objs:\n    self.row_history.save_row(tablename, nickname, obj._values)", "self.row_history.reset_locals()"] := rfl
+  ["relevant_objs = [(obj._tablename, nickname, obj) for nickname, obj in globals.persistent_nicknames.items()]", "already_saved = set(((obj._tablename, obj._id) for _, _, obj in relevant_objs))", "relevant_objs.extend(((tablename, None, obj) for tablename, obj in globals.persistent_objects_by_table.items() if (tablename, obj._id) not in already_saved))", "relevant_objs = ((table, nick, obj) for table, nick, obj in relevant_objs if table in tables_to_keep_history_for)", "for tablename, nickname, obj in relevant_objs:\n    self.row_history.save_row(tablename, nickname, obj._values)", "self.row_history.reset_locals()"] := rfl
+/-- re-save de-duplication (fix 5da9efa): per nicknamed row the key `(obj._tablename, obj._id)` is remembered; a row known by its table name is added as `(tablename, None, obj)` iff `(tablename, obj._id)` is not among those keys — `History.resaveRows` (`already`, `byTable`) -/
+theorem historyWiring_resaveDedup : Gen.HistoryWiring.resaveDedup =
+  ["(obj._tablename, obj._id)", "relevant_objs", "(tablename, None, obj)", "globals.persistent_objects_by_table.items()", "(tablename, obj._id) not in already_saved"] := rfl
 /-- history-related statements of `Interpreter.__init__`, in order -/
 theorem historyWiring_interpreterInitHistory : Gen.HistoryWiring.interpreterInitHistory =
   ["self.tables_to_keep_history_for = find_tables_to_keep_history_for(parse_result, globals.nicknames_and_tables)", "self.row_history = RowHistory(globals.transients.orig_used_ids, self.tables_to_keep_history_for, self.globals.nicknames_and_tables)", "self.resave_objects_from_continuation(globals, self.tables_to_keep_history_for)"] := rfl
